@@ -38,6 +38,7 @@ Qed.
 Theorem solve_bellman_consistent fuel (g : gameQ) prune r :
   wf_game qops g -> num_wf1 g -> solve_fuel qops fuel g prune = Ok r ->
   forall s, (s < nstates g)%nat ->
+    (nth s (g_players g) PR = PR -> pos_w (nth s (r_pruned r) []) /\ sumw (nth s (r_pruned r) []) <= 1) /\
     Qabs (psi (fun i => nth i (r_rewards r) 0) (nth s (g_players g) PR) (nth s (g_rewards g) 0) (nth s (r_pruned r) [])
           - nth s (r_rewards r) 0) <= q_thr.
 Proof.
@@ -78,7 +79,9 @@ Proof.
   { intros i. rewrite Hr. cbn [r_rewards]. change (0:Q) with (er (dnode qops)). apply map_nth. }
   assert (Hrow : nth s (r_pruned r) [] = nxt (getq sl3 s)).
   { rewrite Hr. cbn [r_pruned]. change (@nil trans) with (nxt (dnode qops)). apply map_nth. }
-  destruct (H3 s) as (_ & K3 & W3). destruct (Hst s Hs) as (Hk1 & _ & Hr1 & _).
+  destruct (H3 s) as (R3s & K3 & W3). destruct (Hst s Hs) as (Hk1 & _ & Hr1 & _).
+  split.
+  { intros Hk. rewrite Hrow. apply R3s. rewrite K3, Hk1. exact Hk. }
   unfold psi_at in Hres. rewrite K3, W3, Hk1, Hr1, <- Hrow in Hres. rewrite Hvec.
   assert (Hext : psi (fun i => nth i (r_rewards r) 0) (nth s (g_players g) PR) (nth s (g_rewards g) 0) (nth s (r_pruned r) [])
                  = psi (er_vec sl4) (nth s (g_players g) PR) (nth s (g_rewards g) (zero qops)) (nth s (r_pruned r) [])).
